@@ -40,3 +40,6 @@ def run(rep: Report, repo: Repo, tier: str) -> None:
     from . import misc_rules as _mr
     with rep.isolated():
         _mr.rule_case_folding(rep, repo, "C08-R10")
+    # a doccomment-carrying command in an accepted form always gets its own entry (it is never re-routed to a neighbour)
+    with rep.isolated():
+        protocol.rule_accepted_arities(rep, repo, "C08-R11")
